@@ -62,6 +62,25 @@ func emitLocate(e *Emitter, stride int, p geom.Coord, ring []float64) {
 		}
 		p[0], p[1] = flip(p[0]), flip(p[1])
 	}
+	if negZeroCounter>>57&7 == 5 {
+		// the same figure at another scale (an exact power of two, down to where products of two
+		// ordinates underflow and up to where they overflow): the location is the same
+		sc := math.Ldexp(1, []int{-1000, -600, -540, -300, -100, 100, 300, 511, 600, 900}[negZeroCounter>>50%10])
+		ok := true
+		for i := 0; i+1 < len(ring); i += stride {
+			if math.Abs(ring[i]) >= 1<<40 || math.Abs(ring[i+1]) >= 1<<40 {
+				ok = false
+			}
+		}
+		if ok && math.Abs(p[0]) < 1<<40 && math.Abs(p[1]) < 1<<40 {
+			ring = append([]float64{}, ring...)
+			p = append(geom.Coord{}, p...)
+			for i := 0; i+1 < len(ring); i += stride {
+				ring[i], ring[i+1] = ring[i]*sc, ring[i+1]*sc
+			}
+			p[0], p[1] = p[0]*sc, p[1]*sc
+		}
+	}
 	in := fmt.Sprintf("(%d %s %s)", stride, sxCoord(p), sxCoord(ring))
 	p, ring = slot(0, p...), slot(1, ring...) // caller's buffers reused for every call
 	e.pending("C11.locate", in)
@@ -280,8 +299,8 @@ func genC11(r *Rng, e *Emitter, n int) {
 			}
 			e.tally("op=ptline")
 			e.emit("C11.ptline", fmt.Sprintf("(%s %s %s)", sxCoord(q), sxCoord(a), sxCoord(b)), guard(func() string {
-				return fmt.Sprintf("(%v %v)", lineintersector.PointIntersectsLine(lineintersector.RobustLineIntersector{}, q, a, b),
-					lineintersector.PointIntersectsLine(lineintersector.NonRobustLineIntersector{}, q, a, b))
+				return fmt.Sprintf("(%v %v)", lineintersector.PointIntersectsLine(robustStrategy(), q, a, b),
+					lineintersector.PointIntersectsLine(nonRobustStrategy(), q, a, b))
 			}))
 			continue
 		}
